@@ -57,7 +57,7 @@ theorem idx_step (s s' : St) (e : Ev) (hx : Idx s) (hs : step s e = some s') : I
       · rw [h] at hki; cases hki
   · intro j c' hc' hw
     rcases f1 j c' hc' with ⟨c, hc, ⟨h1, _, _, _, h5⟩⟩ | ⟨_, h, _⟩
-    · have hcw := h5 hw
+    · have hcw := h5.1 hw
       rcases h1 with h1 | ⟨_, _, he⟩
       · rw [h1]; exact hx.wait j c hc hcw
       · -- `enter` makes the call running
